@@ -35,7 +35,7 @@ Act(e) ==
       [] e.op = "after"   -> InstallAfter(e.k, e.a)
       [] e.op = "rec"     -> IF mgr THEN InstallRec(e.k) ELSE EarlyRec(e.k)
       [] e.op = "start"   -> Start
-      [] e.op = "suspend" -> Suspend(e.k)
+      [] e.op = "suspend" -> IF mgr THEN Suspend(e.k) ELSE EarlySuspend(e.k)
       [] e.op = "resume"  -> Resume(e.k)
       [] e.op = "defer"   -> Defer(e.k)
       [] e.op = "run"     -> Run(e.a)
